@@ -185,6 +185,9 @@ class CoreMixin:
                             self.elem(v.args[2], k, n_total, site))
         if v.op == "ZipElem":
             return v.args[k] if k < len(v.args) else self.unknown("zipelem", site)
+        if v.op == "Obj" and v.extra and "tuple_fields" in v.extra:
+            tf = v.extra["tuple_fields"]
+            return tf[k] if -len(tf) <= k < len(tf) else self.unknown("elem-out-of-range", site)
         return self.mk("Elem", (v,), k, site or v.site)
 
     def seq_len(self, v: Node) -> Optional[int]:
@@ -192,6 +195,8 @@ class CoreMixin:
             return len(v.args)
         if v.op == "Const" and isinstance(v.attr, (str, bytes, tuple)):
             return len(v.attr)
+        if v.op == "Obj" and v.extra and "tuple_fields" in v.extra:
+            return len(v.extra["tuple_fields"])
         if v.op == "Phi":
             a, b = self.seq_len(v.args[1]), self.seq_len(v.args[2])
             if a is not None and a == b:
